@@ -52,6 +52,35 @@ MUTANTS = [
      "        data = []\n        for pipe in self.connections:\n            pipe.send(D)\n            data.append(pipe.recv())"),
 ]
 
+# ---- behaviour-preserving refactors: every listed check must stay silent (exit 0)
+REFACTORS = [
+    ("refactor_gibbs_uniform_drawn_first", "C01,C03,C09,C15", "inference/mcmc/gibbs.py",
+     ["                prop[i] = p.proposal()\n                p_new = self.posterior(prop) * self.inv_temp\n",
+      "                    if self.rng.random() < acceptance_prob:\n                        break\n\n            p_old = deepcopy(p_new)"],
+     ["                prop[i] = p.proposal()\n                u_draw = self.rng.random()\n                p_new = self.posterior(prop) * self.inv_temp\n",
+      "                    if u_draw < acceptance_prob:\n                        break\n\n            p_old = deepcopy(p_new)"]),
+    ("refactor_hmc_log_uniform", "C01,C03,C09", "inference/mcmc/hmc/__init__.py",
+     ["            if (accept_prob >= 1) or (self.rng.random() <= accept_prob):", "from numpy import var, isfinite, exp, mean, argmax, percentile, cov\n"],
+     ["            if (accept_prob >= 1) or (log(self.rng.random()) <= H0 - H):", "from numpy import var, isfinite, exp, log, mean, argmax, percentile, cov\n"]),
+    ("refactor_base_import_time_module", "C15,C09", "inference/mcmc/base.py",
+     ["from time import time\n", "        t_start = time()\n        for j in range(k):", "        start_time = time()\n", "            current_time = time()\n"],
+     ["import time as _time\n", "        t_start = _time.time()\n        for j in range(k):", "        start_time = _time.time()\n", "            current_time = _time.time()\n"]),
+    ("refactor_parallel_import_mp_module", "C08,C15", "inference/mcmc/parallel.py",
+     ["from multiprocessing import Process, Pipe, Event, Pool\n", "        self.pool = Pool(self.pool_size)", "        self.shutdown_evt = Event()",
+      "            parent_ctn, child_ctn = Pipe()", "            p = Process(\n"],
+     ["import multiprocessing as _mp\n", "        self.pool = _mp.Pool(self.pool_size)", "        self.shutdown_evt = _mp.Event()",
+      "            parent_ctn, child_ctn = _mp.Pipe()", "            p = _mp.Process(\n"]),
+    ("refactor_ensemble_z_inverse_cdf", "C01,C03,C09", "inference/mcmc/ensemble.py",
+     "        z = 0.5 * (self.x_lwr + self.x_width * self.rng.random()) ** 2",
+     "        z = ((self.alpha - 1.0) * self.rng.random() + 1.0) ** 2 / self.alpha"),
+    ("refactor_pt_swap_skip_draw_when_certain", "C08", "inference/mcmc/parallel.py",
+     "            if self.rng.random() <= exp(-dt * dp):  # check if the swap is successful",
+     "            if -dt * dp >= 0 or self.rng.random() <= exp(-dt * dp):  # check if the swap is successful"),
+    ("refactor_probs_as_numpy_floats", "C03,C14,C09", "inference/mcmc/gibbs.py",
+     "        self.probs.append(p_new)\n        self.chain_length += 1\n", "        self.probs.append(float64(p_new))\n        self.chain_length += 1\n"),
+]
+MUTANTS += REFACTORS
+
 MUTANTS += [
     # ---- C18
     ("ei_tail_gradient_sign", "C18", "inference/gp/acquisition.py",
@@ -224,7 +253,7 @@ MUTANTS += [
 ]
 
 # the last one is behaviour-preserving (serial request/response): the check must NOT alarm
-EQUIVALENT = {"pt_recv_position_before_send_all", "pt_chain_wrong_temperature_after_swap"}
+EQUIVALENT = {"pt_recv_position_before_send_all", "pt_chain_wrong_temperature_after_swap"} | {m[0] for m in REFACTORS}
 
 
 def apply(copy, file, old, new):
@@ -259,10 +288,15 @@ def run_one(m, tier, workers):
         if workers:
             env["VERIF_WORKERS"] = str(workers)
         t0 = time.time()
-        p = subprocess.run([os.path.join(VERIF, "check"), prop, "--tier", tier], env=env, capture_output=True, text=True)
-        lines = [l for l in p.stdout.splitlines() if l.startswith(("violation:", "VIOLATION", "HARNESS", "KNOWN"))]
-        return dict(name=name, property=prop, exit=p.returncode, wall=round(time.time() - t0, 1),
-                    lines=[l[:300] for l in lines[:4]], stderr=p.stderr[-400:] if p.returncode == 2 else "")
+        worst, lines, err = 0, [], ""
+        for one in prop.split(","):
+            p = subprocess.run([os.path.join(VERIF, "check"), one, "--tier", tier], env=env, capture_output=True, text=True)
+            worst = max(worst, p.returncode)
+            lines += [one + ": " + l for l in p.stdout.splitlines() if l.startswith(("violation:", "VIOLATION", "HARNESS"))]
+            if p.returncode == 2:
+                err += p.stderr[-400:]
+        return dict(name=name, property=prop, exit=worst, wall=round(time.time() - t0, 1),
+                    lines=[l[:300] for l in lines[:4]], stderr=err)
     finally:
         shutil.rmtree(base, ignore_errors=True)
 
